@@ -147,7 +147,39 @@ func liWorldGen(r *Run, rng *Rng, w *liWorld, steps int) {
 			}
 		default:
 			evs := liEvents(rng, w, bn, pool, false, !initDone)
-			obs := w.exec(r, strings.TrimSpace(fmt.Sprintf("blk %d %s", bn, evs)))
+			faulted := false
+			if rng.Chance(25) {
+				// C07: one or two attempts in which a write statement of the block's transaction fails, then the driver's retry
+				nev := len(strings.Fields(evs))
+				for a := 0; a < 1+rng.Intn(2); a++ {
+					k := rng.Intn(3 + 36*nev)
+					if rng.Chance(50) {
+						k = 1000 + rng.Intn(1+nev) // the block row or one of the events' own rows
+					}
+					if o := w.exec(r, strings.TrimSpace(fmt.Sprintf("blk! %d %d %s", bn, k, evs))); o == "err fault" {
+						faulted = true
+						if rng.Chance(30) {
+							w.exec(r, "restart")
+						}
+					} else if o == "ok" {
+						faulted = false
+						break // the fault index lay beyond the block's statements: the block is in
+					}
+				}
+			}
+			var obs string
+			if len(w.survNums) > 0 && w.survNums[len(w.survNums)-1] == bn {
+				obs = "ok"
+			} else {
+				obs = w.exec(r, strings.TrimSpace(fmt.Sprintf("blk %d %s", bn, evs)))
+				if faulted && obs != "ok" && obs != "err constraint" {
+					r.Fail("[C07] retrying a well-formed L1 block after a storage fault did not succeed: "+obs, append([]string{"new"}, w.lines...))
+				}
+			}
+			if obs == "ok" && faulted {
+				w.checkAgainstContracts(r, "after fault and retry")
+				w.compareWithTwin(r, "after fault and retry")
+			}
 			if obs == "ok" {
 				if strings.Contains(evs, "in;") {
 					initDone = true
